@@ -139,6 +139,27 @@ func genC04(r *PRNG, tier string) *Scenario {
 	}
 	scn.Links = []Link{l}
 	scn.Net = NetCfg{DefCap: genCap(r)}
+	if r.Chance(1, 4) {
+		// contended class: a controller is stalled inside the transport (holding the write
+		// lock) when the violation arrives, so the 1002 is best effort
+		scn.Class = "violation-contended"
+		ctl := TaskCfg{Kind: "ctl", W: []WOp{{Kind: "ctl", MT: 9, Pay: Payload{Len: 20, Seed: 77}, DlMs: 0}}}
+		dir := "ab"
+		if realIsServer {
+			dir = "ba"
+		}
+		dur := int64(r.Pick([]int{200, 600, 5000, -1}))
+		scn.Net.Conns = []ConnCfg{{Stalls: []Stall{{Dir: dir, Side: "w", At: 0, DurMs: dur}}}}
+		lk := &scn.Links[0]
+		if realIsServer {
+			lk.STasks = append(lk.STasks, ctl)
+		} else {
+			lk.CTasks = append(lk.CTasks, ctl)
+		}
+		// the peer holds its frames back until the controller is inside the transport
+		lk.Script = append([]SItem{{Kind: "pause", PauseMs: 50}}, lk.Script...)
+		scn.Sched.IdleHorizon = 20000
+	}
 	return scn
 }
 
@@ -227,7 +248,33 @@ func oracleC04(run *Run) {
 			break
 		}
 	}
-	if closeAt < 0 && vclass != "length-topbit" {
+	contended := run.Scn.Class == "violation-contended"
+	must1002 := vclass != "length-topbit"
+	if contended {
+		// the reply is best effort: required only if the write lock became free within the second
+		st := run.Scn.Net.Conns[0].Stalls[0]
+		must1002 = must1002 && st.DurMs >= 0 && st.DurMs < 900
+		// the read must not wait for the lock longer than that second
+		calls := e.Net.Calls()
+		var lastRead int64
+		rec := obs[errAt].Rec
+		for _, c := range calls {
+			if c.Op == 'R' && c.Step <= rec.Return && c.N > 0 {
+				lastRead = c.T
+			}
+		}
+		// every ping before the violation may cost one best-effort second as well
+		npings := int64(0)
+		for _, x := range ctlBefore {
+			if x.Op == wsframe.OpPing {
+				npings++
+			}
+		}
+		if rec.TReturn > lastRead+(npings+1)*1e9 {
+			run.fail("C04", "read-blocked-behind-write", "contended", "%s: the last bytes of the violating frame arrived at t=%d ms (%d pings before it) but the read returned at t=%d ms: it waited longer than the best-effort second per reply for the write lock", who, lastRead/1e6, npings, rec.TReturn/1e6)
+		}
+	}
+	if closeAt < 0 && must1002 {
 		run.fail("C04", "no-1002", vclass, "%s: no close frame was sent after a %s frame", who, vclass)
 	}
 	if closeAt >= 0 && (closeAt != len(tv.Items)-1 || tv.Tail != len(tv.Raw)) {
